@@ -907,7 +907,10 @@ def main_ext(outfile):
              node=lambda: fn_ast(block.ExtEvent.send),
              params=[('ready', 'Bool'), ('defaultSource', 'String'), ('value', 'Val'), ('data', 'Data')],
              names={'data': ('data', 'data'), 'value': ('value', 'val'), 'self._source': ('defaultSource', 'str')},
-             atoms={'simulator.get_circuit().is_ready()': ('ready', 'bool')})
+             # `ready` is the readiness of the DESTINATION's circuit (Block.circuit, assigned once by Block.__init__):
+             # `simulator.get_circuit().is_ready()` is the readiness of whatever circuit is current NOW -- a different
+             # thing after reset_circuit() (defect C14-stale-extevent-successor-circuit) and therefore not accepted
+             atoms={'self._dest.circuit.is_ready()': ('ready', 'bool')})
 
     def translate(t):
         node = t['node']()
